@@ -145,7 +145,7 @@ func init() {
 	}
 	c01plans := "plain,plain-2,clock3600,clock-86400,noise-1,noise-2,restart7"
 	var c01thorough []map[string]string
-	for i, l := range []string{"life:mixed", "life:renewheavy", "life:timeouts", "life:migrate", "life:rewards", "staking", "staking", "authz", "actor", "didreg", "faults", "life:mixed", "staking", "didreg", "life:migrate", "faults"} {
+	for i, l := range []string{"renewals:multiversion-migrate", "renewals:migrated", "life:mixed", "life:renewheavy", "life:timeouts", "life:migrate", "life:rewards", "staking", "staking", "authz", "actor", "didreg", "faults", "life:mixed", "staking", "didreg", "life:migrate", "faults"} {
 		a := map[string]string{"leader": l, "plans": c01plans + ",plain-3,noise-3", "ops": "150"}
 		if l == "staking" {
 			a["stores"] = "1"
@@ -167,6 +167,7 @@ func init() {
 				{"leader": "didreg", "plans": "plain,clock3600,clock-86400,noise-1", "ops": "120"},
 				{"leader": "life:mixed", "plans": "plain,plain-2,clock3600,noise-1,restart401", "ops": "30"},
 				{"leader": "authz", "plans": "plain,noise-1,noise-2,restart5", "rounds": "1", "relayers": "1"},
+				{"leader": "renewals:multiversion-migrate", "plans": "plain,plain-2,plain-3,plain-4,noise-1"},
 			}, c01thorough),
 		MinCases:    map[string]int{"quick": 6, "thorough": 12},
 		Assumptions: []string{"only amd64 is available: cross-architecture floating point (Node.Reputation is float32) cannot be observed", "SDK-internal races (baseapp, params) are counted but not attributed to this repository"}})
@@ -233,6 +234,9 @@ func init() {
 				add("didreg", 4, map[string]string{"ops": "800"})
 				add("authz", 2, map[string]string{"rounds": "1", "relayers": "2"})
 				add("actor", 2, map[string]string{"rounds": "3"})
+				for _, m := range []string{"migrated", "debt-expire", "debt-release", "queued", "afterroll", "shorter", "longer", "term-reassign", "fp-reassign", "multiversion-migrate", "unaligned"} {
+					add("renewals", 3, map[string]string{"mode": m})
+				}
 			} else {
 				add("hostile", 2, map[string]string{"n": "120"})
 				add("selection", 3, map[string]string{"direct": "500", "orders": "8"})
@@ -240,6 +244,9 @@ func init() {
 				add("config", 12, map[string]string{"ops": "14"})
 				add("life", 2, map[string]string{"ops": "40", "bigtimeout": "1"})
 				add("staking", 1, map[string]string{"ops": "150", "offline": "40"})
+				add("renewals", 1, map[string]string{"mode": "migrated"})
+				add("renewals", 1, map[string]string{"mode": "debt-expire"})
+				add("renewals", 1, map[string]string{"mode": "queued"})
 			}
 			return jobs
 		},
@@ -338,7 +345,7 @@ func init() {
 	lifeRule := "seeded random walks over the order lifecycle — store (sizes around the 1e-6 price rounding, replica 1-3, durations 3600-6000, sponsored payment, owner-submitted + Ready), staggered completion with silent providers, update, force-push, renew (several in a row, shorter and longer), terminate at every phase, cancel, migrate, claim, capacity add/remove, a provider without liquid balance (debt paths) — with block advance to just before / at / after every scheduled height and a final drain across all schedules; five weight profiles. "
 	check.RegisterSpec(&check.Spec{Prop: "C04", Level: "exploration",
 		Rule:        lifeRule + "The monitor decides every store/renew charge against the quote and the rightful payer, classifies every transfer touching the order/market escrows, keeps a reference income per provider (unit price x bytes x blocks over observed holdings) and a conservation balance with a dust bound of one coin per charge/refund settlement. A case is a charge shape (size, replicas, sponsored), an ending path (expiry, rotation to renewal, terminate, cancel, timeout-cancel, replica reduction, force-push) or a claim class; distinct_nontrivial counts distinct cases.",
-		Jobs:        withExtra(lifeJobs("C04", 5, 64, nil), recipes("C04", "shorter", "queued", "migrated", "debt-release")),
+		Jobs:        withExtra(lifeJobs("C04", 5, 64, nil), recipes("C04", "shorter", "queued", "migrated", "debt-release", "term-reassign", "fp-reassign")),
 		MinCases:    map[string]int{"quick": 12, "thorough": 25},
 		Assumptions: []string{"bank transfer events are complete; prices are exact in 18 decimals"}})
 	check.RegisterSpec(&check.Spec{Prop: "C05", Level: "exploration",
@@ -361,7 +368,7 @@ func init() {
 	check.RegisterSpec(&check.Spec{Prop: "C06", Level: "exploration",
 		Rule: lifeRule + "Plus a recipe with a sponsor-paid order whose owner DID has no payment address (refund into the did module). On every block-boundary snapshot the four escrow inequalities are evaluated against liabilities recomputed from the exported records; entitled payouts that fail are flagged. A case is the bucketed shape of a state (orders, live shards, queued renewals, debts, rewards, DID balances); distinct_nontrivial counts distinct shapes.",
 		Jobs: withExtra(lifeJobs("C06", 5, 48, nil), func(tier string, seed int64) []check.Job {
-			return append(recipes("C06", "debt-release", "queued", "debt-expire")(tier, seed), check.Job{Prop: "C06", Scenario: "sponsored-nopay", Seed: seed*472882027 + 1})
+			return append(recipes("C06", "debt-release", "queued", "debt-expire", "term-reassign")(tier, seed), check.Job{Prop: "C06", Scenario: "sponsored-nopay", Seed: seed*472882027 + 1})
 		}),
 		MinCases:    map[string]int{"quick": 8, "thorough": 16},
 		Assumptions: []string{"liabilities are recomputed from exported module state"}})
